@@ -115,3 +115,13 @@ Theorem C02_toc_writer_balanced : forall d opts s t s1, Exp.fmt s = Exp.FX -> Fo
   Xhtml.X.toc_string d opts s = (Some t, s1) -> forall stk, Tok.run t (Tok.Txt, stk) = (Tok.Txt, stk).
 Proof. exact TocStr.toc_string_balanced. Qed.
 Print Assumptions C02_toc_writer_balanced.
+
+(* tie to the source: the characters a header id, an attribute key and a user id are checked against (D33, D34, D37)
+   are read from the source by the translator on every run *)
+Require CharSets.
+From Coq Require Import String.
+Open Scope string_scope.
+Theorem C02_guards_are_the_source :
+  CharSets.sets_of "xhtml.idIsSafe" = [MBase.id_unsafe_chars] /\ CharSets.sets_of "frundis.checkPairs" = [MBase.key_bad_chars; MBase.key_bad_first] /\
+  CharSets.sets_of "frundis.reservedID" = [MBase.anchor_tail_chars].
+Proof. exact CharSets.xhtml_guards_are_the_source. Qed.
